@@ -19,7 +19,7 @@ func init() {
 		Decides: "sampling fails open: a sampler verdict is used only when Decide returned no error and a mask of the right length, Decide runs under a recover in the chain, and every verdict the merge chain returns on timeout / open circuit / error is the retain-all verdict (or exactly what the worker produced); " +
 			"the secondary indexes are pruned with the keep predicate of the very drop set the core merge produced in the same attempt, released only when the attempt ends; a guarded merge is published only when its revalidation still says Publish, otherwise nothing is committed; the evaluation stager's budget flushes (flushBefore / flushAfter) are unreachable while the next block continues the trace staged last; the trace-id primary-block search starts at the block that may hold the head of the trace (predicate: id <= first id; result n-1).",
 		NotDecided: "which traces a sampler selects, whether fragments exist elsewhere (guard precision), how mergeBlocks stages a trace across blocks beyond the two boundary guards decided here, completeness of query-by-trace-id beyond the start of the primary-block search.",
-		Technique:  "guarded-return on resolved error/length tests, defining-instruction analysis of returned verdicts, SSA binding identity of the keep closure, world pruning on the Publish flag",
+		Technique:  "guarded-return on resolved error/length tests, defining-instruction analysis of returned verdicts, SSA binding identity of the keep closure, world pruning on the Publish flag; relational world pruning on trace-id equality; truth table of the binary-search predicate",
 		Run:        runC13,
 	})
 }
